@@ -220,6 +220,9 @@ func rulesC10(c *Ctx) {
 	}
 
 	c10MoveGuard(c, g)
+	c10ErrOrigins(c, g)
+	c10LivenessReset(c)
+	c10LivenessRemovedNode(c)
 	c10Support(c)
 
 	// ---- (b) multiplexer
